@@ -24,4 +24,22 @@ theorem temporaryPrefix_translated (p : UInt8) :
       have b1 : (p == 0x70) = false := by simpa using h1
       have b2 : (p == 0x71) = false := by simpa using h2
       simp [n1, n2, b1, b2]
+theorem memoryStoreGet_aux (e : Option (Option Val)) (c v : Int) :
+    (Generated.GoFuncs.memoryStoreGet c v e.isSome (match e with | some (some _) => true | _ => false)).2 =
+      (if (match e with | some (some w) => some w | _ => none : Option Val).isSome then "ok" else "ErrKeyNotFound") := by
+  unfold Generated.GoFuncs.memoryStoreGet
+  cases e with
+  | none => simp
+  | some ov => cases ov <;> simp
+
+/-- the Go function `MemoryStore.Get` (memory_store.go:29-37), re-translated from /repo on every check run,
+finds a key exactly when the model's MemoryStore does: the entry exists AND its value is not nil (a nil value
+is a deletion; an EMPTY value is a value). Leaves: `ok` = the key is in the chosen map, `val_nil` = its value
+is non-nil; `c`, `v` stand for the chosen map and the value. -/
+theorem memoryStoreGet_translated (m s : GoMap) (k : Key) (c v : Int) :
+    (Generated.GoFuncs.memoryStoreGet c v (mapGet (if isStor k then s else m) k).isSome
+        (match mapGet (if isStor k then s else m) k with | some (some _) => true | _ => false)).2 =
+      (if ((Store.memB m s).get k).isSome then "ok" else "ErrKeyNotFound") :=
+  memoryStoreGet_aux _ c v
+
 end NeoModel.GoFuncsTie
